@@ -171,6 +171,7 @@ func runCheck(repo, verif, prop, tier string, keep bool, only string, verbose bo
 	}
 	// verify selected units and the cone of contracts they rely on
 	done := map[string]bool{}
+	depAssumed := map[string]bool{}
 	var results []*UnitResult
 	queue := append([]*Contract{}, selected...)
 	for len(queue) > 0 {
@@ -185,6 +186,12 @@ func runCheck(repo, verif, prop, tier string, keep bool, only string, verbose bo
 			continue
 		}
 		if eng.pkgs[c.Pkg] == nil {
+			continue
+		}
+		if pk := eng.pkgs[c.Pkg]; len(pk.GoFiles) > 0 && !strings.HasPrefix(pk.GoFiles[0], eng.repo) {
+			// the package under contract is resolved from the module cache (a pinned release of
+			// the node module used by another module), not from /repo: its contracts are assumed
+			depAssumed["contract of "+shortPkg(c.Pkg)+"."+c.Key()+" assumed for the module-cache copy "+filepath.Dir(pk.GoFiles[0])+" (the same contract is verified on /repo's copy by the properties that own it)"] = true
 			continue
 		}
 		r := eng.verifyContract(c)
@@ -335,6 +342,9 @@ func runCheck(repo, verif, prop, tier string, keep bool, only string, verbose bo
 		for _, a := range r.Unit.envAssumes {
 			trusted["environment assumption: "+a] = true
 		}
+	}
+	for k := range depAssumed {
+		trusted[k] = true
 	}
 	for k := range trusted {
 		assumptions = append(assumptions, k)
